@@ -603,6 +603,13 @@ package helper
 //@ requires[C01,C15] forall j :: 0 <= j && j < n ==> a[j] == b[j]
 //@ ensures[C01,C15] psum(a, n) == psum(b, n)
 //@ induction n
+//@ lemma since_cong(a stream, b stream, k int)
+//@ requires[C01,C15] forall j :: 0 <= j && j <= k ==> a[j] == b[j]
+//@ ensures[C01,C15] since(a, k) == since(b, k)
+//@ induction k
+//@ lemma since_nonneg(a stream, k int)
+//@ ensures[C01,C15] since(a, k) >= 0
+//@ induction k
 //@ lemma rma_cong(a stream, b stream, P int, k int)
 //@ requires[C01,C15] P >= 1 && k >= 0 && (forall j :: 0 <= j && j < k + P ==> a[j] == b[j])
 //@ ensures[C01,C15] rmaS(a, P, k) == rmaS(b, P, k)
